@@ -1,3 +1,465 @@
+"""Leaf specs for C03 (rdm/compare.py, util/rdm_utils.py).
+
+Native py2lean leaves (translated straight from the current source text):
+  tauTot, conMinusDis, tauRatio, tauClamp   the arithmetic of `_tau_a`
+  rhoAScale                                 rho-a constant (einsum opaque)
+  ckaGrandMean                              grand mean of the linear-CKA path (sum opaque)
+  nFromReduced, nFromLength                 recovery of n_cond from the vector length
+
+Round 3: array / boolean expressions outside the scalar subset of py2lean are first *derived*
+from the current source text (Python `ast`) into tiny scalar functions written to
+`harness/leaves/_C03_derived.py` (rewritten on every run, never cached); py2lean then translates
+those as usual.  Every derivation fails closed: an unexpected shape of the anchor yields a call to
+`__underivable__`, which py2lean reports as an untranslatable leaf = broken obligation.
+
+  cosine_sel      _cosine: `sel_1 = norm_1 > 0` / `sel_2 = norm_2 > 0`      -> 1 if norm > 0 else 0
+  cosine_entry    _cosine: `cos_ok /= norm_1.reshape(..)`, `cos_ok /= norm_2.reshape(..)` in both
+                  branches                                                   -> (inner / n1) / n2
+  getv_branch     _get_v: the if / elif / else on `sigma_k` with the three products replaced by
+                  codes 0 (C Cᵀ) / 1 (C diag(σ) Cᵀ) / 2 (C Σ Cᵀ)
+  cov_route       _cosine_cov_weighted: the test that sends a call to the V-solve (1) or the CKA path (0)
+  half_neg        compare_bures_*: `batch_to_matrices(-vector1 / 2)`          -> -d / 2
+  centre_entry    compare_bures_*: `G1 - s1 - np.transpose(s1, ..) + np.mean(s1, 2, ..)` (4 places)
+  bures_clamp     _bures_similarity_first_way / _sq_bures_metric_first_way: `np.maximum(va[:, None], 0.0)`
+  bures_denom_sq  `denom = np.sqrt(np.trace(A) * np.trace(B))`               -> trA * trB
+  bures_ratio     `return num / denom`
+  sq_bures        `return np.trace(A) + np.trace(B) - 2 * np.sum(...)`        -> trA + trB - 2 * fid
+  cka_half_neg    _cov_weighting: `vector_w = -0.5 * np.c_[...]`              -> -0.5 * d
+  cka_mean        _cov_weighting: `m = vector_w @ sumI / n_cond`              -> rcsum / n_cond
+  cka_centre      _cov_weighting: `vector_w = vector_w - m @ sumI.T + mm`     -> w - msum + mm
+  riem_gram       compare_neg_riemannian_distance: the T block `[0.5 * pairs, np.diag(-0.5 * ...)]`
+                  with `pairs[pairs == -1] = 1`                              -> 0.5 * (di + dj) + -0.5 * dij
+  riem_neg        _riemannian_distance: `neg_riem = -1 * theta.fun`
+"""
+import ast
+import os
+
+SRC = os.environ.get('RSA_REPO_SRC', '/repo/src/rsatoolbox')
+HERE = os.path.dirname(os.path.abspath(__file__))
+DERIVED = os.path.join(HERE, '_C03_derived.py')
+CMP = 'rdm/compare.py'
+
+
+class Underivable(Exception):
+    pass
+
+
+def _func(path, name):
+    tree = ast.parse(open(os.path.join(SRC, path)).read())
+    for node in ast.walk(tree):
+        if isinstance(node, ast.FunctionDef) and node.name == name:
+            return node
+    raise Underivable(f'{path}: function {name} not found')
+
+
+def _assigns(fn, target):
+    hits = [n for n in ast.walk(fn) if isinstance(n, ast.Assign) and len(n.targets) == 1
+            and ast.unparse(n.targets[0]) == target]
+    hits.sort(key=lambda n: n.lineno)
+    return hits
+
+
+def _one_assign(fn, target):
+    hits = _assigns(fn, target)
+    if len(hits) != 1:
+        raise Underivable(f'expected one assignment to {target} in {fn.name}, found {len(hits)}')
+    return hits[0].value
+
+
+class _Subst(ast.NodeTransformer):
+    """replace whole sub-expressions (matched by their unparsed text) by names"""
+
+    def __init__(self, subs):
+        self.subs = subs
+        self.used = set()
+
+    def visit(self, node):
+        if isinstance(node, ast.expr):
+            t = ast.unparse(node)
+            if t in self.subs:
+                self.used.add(t)
+                return ast.Name(id=self.subs[t], ctx=ast.Load())
+        return self.generic_visit(node)
+
+
+def _substituted(expr, subs, allowed_names):
+    tr = _Subst(subs)
+    new = tr.visit(ast.parse(ast.unparse(expr), mode='eval').body)
+    missing = [k for k in subs if k not in tr.used]
+    if missing:
+        raise Underivable(f'sub-expression(s) {missing} not found in `{ast.unparse(expr)}`')
+    left = {n.id for n in ast.walk(new) if isinstance(n, ast.Name)} - set(allowed_names)
+    if left:
+        raise Underivable(f'unexpected names {sorted(left)} in `{ast.unparse(expr)}`')
+    return ast.unparse(ast.fix_missing_locations(new))
+
+
+def _rename(text, mapping):
+    tree = ast.parse(text, mode='eval').body
+
+    class R(ast.NodeTransformer):
+        def visit_Name(self, node):
+            return ast.Name(id=mapping.get(node.id, node.id), ctx=node.ctx)
+    return ast.unparse(R().visit(tree))
+
+
+# ------------------------------------------------------------------ derivations
+
+def d_cosine_sel():
+    fn = _func(CMP, '_cosine')
+    s1 = _rename(ast.unparse(_one_assign(fn, 'sel_1')), {'norm_1': 'norm'})
+    s2 = _rename(ast.unparse(_one_assign(fn, 'sel_2')), {'norm_2': 'norm'})
+    if s1 != s2:
+        raise Underivable(f'sel_1 and sel_2 use different tests: `{s1}` / `{s2}`')
+    if not isinstance(ast.parse(s1, mode='eval').body, ast.Compare):
+        raise Underivable(f'sel is not a comparison: `{s1}`')
+    return f'(1 if {s1} else 0)'
+
+
+def d_cosine_entry():
+    fn = _func(CMP, '_cosine')
+    top_if = [n for n in fn.body if isinstance(n, ast.If)]
+    if len(top_if) != 1 or ast.unparse(top_if[0].test) != 'np.all(sel_1) and np.all(sel_2)':
+        raise Underivable('the all-non-zero shortcut of _cosine was not found')
+    branch_a = top_if[0].body
+    branch_b = [n for n in fn.body if n.lineno > top_if[0].end_lineno]
+    ops = {ast.Div: '/', ast.Mult: '*', ast.Add: '+', ast.Sub: '-'}
+
+    def entry(stmts, names):
+        expr = None
+        for s in stmts:
+            if isinstance(s, ast.Assign) and ast.unparse(s.targets[0]) == 'cos_ok':
+                call = s.value
+                if not (isinstance(call, ast.Call) and ast.unparse(call.func) == 'np.einsum'
+                        and ast.unparse(call.args[0]) == "'ij,kj->ik'"
+                        and [ast.unparse(a) for a in call.args[1:]] == names[:2]):
+                    raise Underivable(f'unexpected inner product `{ast.unparse(call)}`')
+                expr = 'inner'
+            elif isinstance(s, ast.AugAssign) and ast.unparse(s.target) == 'cos_ok':
+                if expr is None or type(s.op) not in ops:
+                    raise Underivable('augmented assignment before the inner product / unknown operator')
+                v = ast.unparse(s.value)
+                if v == names[2]:
+                    expr = f'({expr} {ops[type(s.op)]} n1)'
+                elif v == names[3]:
+                    expr = f'({expr} {ops[type(s.op)]} n2)'
+                else:
+                    raise Underivable(f'unexpected normaliser `{v}`')
+        if expr is None:
+            raise Underivable('no inner product found')
+        return expr
+    a = entry(branch_a, ['vector1', 'vector2', 'norm_1.reshape((-1, 1))', 'norm_2.reshape((1, -1))'])
+    b = entry(branch_b, ['vector1[sel_1]', 'vector2[sel_2]', 'norm_1[sel_1].reshape((-1, 1))',
+                         'norm_2[sel_2].reshape((1, -1))'])
+    if a != b:
+        raise Underivable(f'the two branches of _cosine normalise differently: {a} / {b}')
+    for k, want in (('norm_1', "np.sqrt(np.einsum('ij,ij->i', vector1, vector1))"),
+                    ('norm_2', "np.sqrt(np.einsum('ij,ij->i', vector2, vector2))")):
+        got = ast.unparse(_one_assign(fn, k))
+        if got != want:
+            raise Underivable(f'{k} is `{got}`')
+    return a
+
+
+_XI = {'xi = c_mat @ c_mat.transpose()': 0,
+       'sigma_k = scipy.sparse.diags(sigma_k)\nxi = c_mat @ sigma_k @ c_mat.transpose()': 1,
+       'sigma_k = scipy.sparse.csr_matrix(sigma_k)\nxi = c_mat @ sigma_k @ c_mat.transpose()': 2}
+
+
+def d_getv_branch():
+    fn = _func(CMP, '_get_v')
+    ifs = [n for n in fn.body if isinstance(n, ast.If)]
+    if len(ifs) != 1:
+        raise Underivable('expected one if-statement in _get_v')
+    if ast.unparse(_one_assign(fn, 'v')) != 'xi.multiply(xi).tocsc()':
+        raise Underivable('v is not the element-wise square of xi')
+
+    def code(stmts):
+        t = '\n'.join(ast.unparse(s) for s in stmts)
+        if t not in _XI:
+            raise Underivable(f'unknown branch body `{t}`')
+        return _XI[t]
+
+    def render(node, ind):
+        pad = ' ' * ind
+        out = [f'{pad}if {ast.unparse(node.test)}:', f'{pad}    return {code(node.body)}']
+        if len(node.orelse) == 1 and isinstance(node.orelse[0], ast.If):
+            out += [f'{pad}else:'] + render(node.orelse[0], ind + 4)
+        else:
+            out += [f'{pad}else:', f'{pad}    return {code(node.orelse)}']
+        return out
+    return '\n'.join(render(ifs[0], 4))
+
+
+def d_cov_route():
+    fn = _func(CMP, '_cosine_cov_weighted')
+    ifs = [n for n in fn.body if isinstance(n, ast.If)]
+    if len(ifs) != 1:
+        raise Underivable('expected one if-statement in _cosine_cov_weighted')
+    body, orelse = ast.unparse(ifs[0].body), '\n'.join(ast.unparse(s) for s in ifs[0].orelse)
+    if '_cosine_cov_weighted_slow(' not in body or '_cov_weighting(' in body:
+        raise Underivable('first branch is not the V-solve')
+    if '_cov_weighting(' not in orelse or '_cosine_cov_weighted_slow(' in orelse:
+        raise Underivable('second branch is not the CKA path')
+    return f'(1 if {ast.unparse(ifs[0].test)} else 0)'
+
+
+def _bures_funcs():
+    return [_func(CMP, 'compare_bures_similarity'), _func(CMP, 'compare_bures_metric')]
+
+
+def d_half_neg():
+    outs = set()
+    for fn in _bures_funcs():
+        for k in ('1', '2'):
+            hits = [n for n in ast.walk(fn) if isinstance(n, ast.Assign)
+                    and ast.unparse(n.targets[0]) == f'(G{k}, _, _)']
+            if len(hits) != 1:
+                raise Underivable(f'kernel construction G{k} not found in {fn.name}')
+            call = hits[0].value
+            if not (isinstance(call, ast.Call) and ast.unparse(call.func) == 'batch_to_matrices'
+                    and len(call.args) == 1):
+                raise Underivable(f'G{k} is not batch_to_matrices(...)')
+            outs.add(_substituted(call.args[0], {f'vector{k}': 'd'}, ['d']))
+    if len(outs) != 1:
+        raise Underivable(f'kernels are built differently: {sorted(outs)}')
+    return outs.pop()
+
+
+def d_centre_entry():
+    outs = set()
+    for fn in _bures_funcs():
+        for k in ('1', '2'):
+            s = ast.unparse(_one_assign(fn, f's{k}'))
+            if s != f'np.mean(G{k}, 1, keepdims=True)':
+                raise Underivable(f's{k} is `{s}`')
+            val = _one_assign(fn, f'G{k}')
+            outs.add(_substituted(val, {f'np.transpose(s{k}, (0, 2, 1))': 'si',
+                                        f'np.mean(s{k}, 2, keepdims=True)': 'mm',
+                                        f'G{k}': 'g', f's{k}': 'sj'}, ['g', 'sj', 'si', 'mm']))
+    if len(outs) != 1:
+        raise Underivable(f'kernels are centred differently: {sorted(outs)}')
+    return outs.pop()
+
+
+def _first_way():
+    return [_func(CMP, '_bures_similarity_first_way'), _func(CMP, '_sq_bures_metric_first_way')]
+
+
+def d_bures_clamp():
+    outs = set()
+    for fn in _first_way():
+        asq = _one_assign(fn, 'Asq')
+        calls = [n for n in ast.walk(asq) if isinstance(n, ast.Call) and ast.unparse(n.func) == 'np.maximum']
+        if len(calls) != 1 or len(calls[0].args) != 2:
+            raise Underivable(f'no single np.maximum in Asq of {fn.name}')
+        outs.add('max(' + ', '.join('v' if ast.unparse(a) == 'va[:, None]' else ast.unparse(a)
+                                     for a in calls[0].args) + ')')
+        rest = ast.unparse(asq).replace(ast.unparse(calls[0]), 'CL')
+        if rest != 'ua @ (np.sqrt(CL) * ua.T)':
+            raise Underivable(f'Asq is `{ast.unparse(asq)}`')
+        # the clamp of the eigenvalues of Asq B Asq
+        ev = [n for n in ast.walk(fn) if isinstance(n, ast.Call) and ast.unparse(n.func) == 'np.maximum'
+              and 'eigvalsh' in ast.unparse(n)]
+        if len(ev) != 1:
+            raise Underivable('clamp of the eigenvalues of Asq B Asq not found')
+        outs.add('max(' + ', '.join('v' if 'eigvalsh' in ast.unparse(a) else ast.unparse(a)
+                                     for a in ev[0].args) + ')')
+        inner = [ast.unparse(a) for a in ev[0].args if 'eigvalsh' in ast.unparse(a)]
+        if inner != ['np.linalg.eigvalsh(Asq @ B @ Asq)']:
+            raise Underivable(f'unexpected eigenvalue problem {inner}')
+    norm = {o.replace('0.0, v', 'v, 0.0') for o in outs}
+    if len(norm) != 1:
+        raise Underivable(f'different clamps: {sorted(outs)}')
+    return norm.pop()
+
+
+def d_bures_denom_sq():
+    fn = _func(CMP, '_bures_similarity_first_way')
+    den = _one_assign(fn, 'denom')
+    if not (isinstance(den, ast.Call) and ast.unparse(den.func) == 'np.sqrt' and len(den.args) == 1):
+        raise Underivable(f'denom is `{ast.unparse(den)}`')
+    return _substituted(den.args[0], {'np.trace(A)': 'trA', 'np.trace(B)': 'trB'}, ['trA', 'trB'])
+
+
+def _ret(fn):
+    rets = [n for n in ast.walk(fn) if isinstance(n, ast.Return)]
+    if len(rets) != 1:
+        raise Underivable(f'expected one return in {fn.name}')
+    return rets[0].value
+
+
+def d_bures_ratio():
+    fn = _func(CMP, '_bures_similarity_first_way')
+    num = ast.unparse(_one_assign(fn, 'num'))
+    if num != 'np.sum(np.sqrt(np.maximum(np.linalg.eigvalsh(Asq @ B @ Asq), 0.0)))':
+        raise Underivable(f'num is `{num}`')
+    return _substituted(_ret(fn), {}, ['num', 'denom'])
+
+
+def d_sq_bures():
+    fn = _func(CMP, '_sq_bures_metric_first_way')
+    return _substituted(_ret(fn), {
+        'np.trace(A)': 'trA', 'np.trace(B)': 'trB',
+        'np.sum(np.sqrt(np.maximum(0.0, np.linalg.eigvalsh(Asq @ B @ Asq))))': 'fid'},
+        ['trA', 'trB', 'fid'])
+
+
+def d_cka_half_neg():
+    fn = _func(CMP, '_cov_weighting')
+    hits = _assigns(fn, 'vector_w')
+    if not hits:
+        raise Underivable('vector_w not assigned')
+    return _substituted(hits[0].value, {'np.c_[vector, np.zeros((N, n_cond))]': 'd'}, ['d'])
+
+
+def d_cka_mean():
+    fn = _func(CMP, '_cov_weighting')
+    if ast.unparse(_assigns(fn, 'sumI')[0].value) != 'rowI + colI':
+        raise Underivable('sumI is not rowI + colI')
+    return _substituted(_one_assign(fn, 'm'), {'vector_w @ sumI': 'rcsum'}, ['rcsum', 'n_cond'])
+
+
+def d_cka_centre():
+    fn = _func(CMP, '_cov_weighting')
+    hits = _assigns(fn, 'vector_w')
+    if len(hits) < 2:
+        raise Underivable('centring assignment to vector_w not found')
+    return _substituted(hits[1].value, {'m @ sumI.T': 'msum', 'vector_w': 'w'}, ['w', 'msum', 'mm'])
+
+
+def d_riem_gram():
+    fn = _func(CMP, 'compare_neg_riemannian_distance')
+    t = _one_assign(fn, 'T')
+    want_shape = ('np.block([[np.eye(n_cond - 1), np.zeros((n_cond - 1, vector1.shape[1] - n_cond + 1))], '
+                  '[C1 * pairs, np.diag(C2 * np.ones(vector1.shape[1] - n_cond + 1))]])')
+    rows = t.args[0].elts if isinstance(t, ast.Call) and t.args and isinstance(t.args[0], ast.List) else None
+    if rows is None or len(rows) != 2 or not isinstance(rows[1], ast.List) or len(rows[1].elts) != 2:
+        raise Underivable('T is not a 2 x 2 block matrix')
+    left, right = rows[1].elts
+    if not (isinstance(left, ast.BinOp) and isinstance(left.op, ast.Mult) and ast.unparse(left.right) == 'pairs'):
+        raise Underivable(f'lower-left block is `{ast.unparse(left)}`')
+    c1 = ast.unparse(left.left)
+    if not (isinstance(right, ast.Call) and ast.unparse(right.func) == 'np.diag'
+            and isinstance(right.args[0], ast.BinOp) and isinstance(right.args[0].op, ast.Mult)
+            and ast.unparse(right.args[0].right).startswith('np.ones(')):
+        raise Underivable(f'lower-right block is `{ast.unparse(right)}`')
+    c2 = ast.unparse(right.args[0].left)
+    if ast.unparse(t) != want_shape.replace('C1', c1).replace('C2', c2):
+        raise Underivable(f'T is `{ast.unparse(t)}`')
+    if ast.unparse(_one_assign(fn, 'pairs')) != 'pairwise_contrast(np.arange(n_cond - 1))':
+        raise Underivable('pairs is not the pairwise contrast of the n-1 remaining conditions')
+    masked = [n for n in ast.walk(fn) if isinstance(n, ast.Assign)
+              and ast.unparse(n.targets[0]) == 'pairs[pairs == -1]']
+    sign = '+'
+    if len(masked) != 1:
+        sign = '-'                      # without the mask the contrast rows are e_i - e_j
+    elif ast.unparse(masked[0].value) != '1':
+        raise Underivable(f'pairs[pairs == -1] = {ast.unparse(masked[0].value)}')
+    for k in ('1', '2'):
+        if ast.unparse(_one_assign(fn, f'vec_G{k}')) != f'vector{k} @ np.transpose(T)':
+            raise Underivable(f'vec_G{k} is not vector{k} @ T.T')
+    return f'{c1} * (di {sign} dj) + {c2} * dij'
+
+
+def d_riem_neg():
+    fn = _func(CMP, '_riemannian_distance')
+    v = _one_assign(fn, 'neg_riem')
+    if ast.unparse(_one_assign(fn, 'theta')) != "minimize(fun, (0, 0), method='Nelder-Mead')":
+        raise Underivable('theta is not the Nelder-Mead minimiser started at (0, 0)')
+    if isinstance(v, ast.BinOp) and isinstance(v.op, ast.Mult) and isinstance(v.left, ast.UnaryOp) \
+            and isinstance(v.left.op, ast.USub) and isinstance(v.left.operand, ast.Constant):
+        # `-c * x` is read as `-(c * x)` (py2lean types a bare negative literal as an integer)
+        return '-(' + ast.unparse(v.left.operand) + ' * ' + \
+            _substituted(v.right, {'theta.fun': 'f'}, ['f']) + ')'
+    return _substituted(v, {'theta.fun': 'f'}, ['f'])
+
+
+def _strip_sum(e):
+    if not (isinstance(e, ast.Call) and isinstance(e.func, ast.Attribute) and e.func.attr == 'sum'
+            and not e.args and not e.keywords):
+        raise Underivable(f'`{ast.unparse(e)}` is not `(...).sum()`')
+    return e.func.value
+
+
+def d_run_tie():
+    fn = _func(CMP, '_tau_a')
+    cnt = ast.unparse(_one_assign(fn, 'cnt'))
+    if cnt != "np.diff(np.nonzero(obs)[0]).astype('int64', copy=False)":
+        raise Underivable(f'cnt is `{cnt}`')
+    obs = ast.unparse(_one_assign(fn, 'obs'))
+    if obs != 'np.r_[True, (vector1[1:] != vector1[:-1]) | (vector2[1:] != vector2[:-1]), True]':
+        raise Underivable(f'obs is `{obs}`')
+    return _substituted(_strip_sum(_one_assign(fn, 'ntie')), {}, ['cnt'])
+
+
+def d_rank_tie():
+    fn = _func(CMP, '_count_rank_tie')
+    hits = _assigns(fn, 'cnt')
+    if len(hits) != 2 or ast.unparse(hits[0].value) != "np.bincount(ranks).astype('int64', copy=False)":
+        raise Underivable('cnt is not the bincount of the ranks')
+    r = _ret(fn)
+    if not isinstance(r, ast.Tuple) or not r.elts:
+        raise Underivable('_count_rank_tie does not return a tuple')
+    return _substituted(_strip_sum(r.elts[0]), {}, ['cnt'])
+
+
+def d_rank_tie_keep():
+    fn = _func(CMP, '_count_rank_tie')
+    hits = _assigns(fn, 'cnt')
+    if len(hits) != 2:
+        raise Underivable('expected two assignments to cnt')
+    v = hits[1].value
+    if not (isinstance(v, ast.Subscript) and ast.unparse(v.value) == 'cnt' and isinstance(v.slice, ast.Compare)):
+        raise Underivable(f'filter is `{ast.unparse(v)}`')
+    return f'(1 if {ast.unparse(v.slice)} else 0)'
+
+
+def _derive():
+    out = ['# DERIVED by harness/leaves/C03.py from the source tree under check - do not edit', '']
+
+    def emit(name, params, body_fn, block=False):
+        try:
+            body = body_fn()
+        except Exception as exc:  # noqa: BLE001  (fail closed: any surprise = underivable)
+            body, block = '__underivable__(' + repr(str(exc)) + ')', False
+        out.append(f'def {name}({", ".join(params)}):')
+        out.append(body if block else f'    return {body}')
+        out.append('')
+
+    emit('cosine_sel', ['norm'], d_cosine_sel)
+    emit('cosine_entry', ['inner', 'n1', 'n2'], d_cosine_entry)
+    emit('getv_branch', ['sigma_k'], d_getv_branch, block=True)
+    emit('cov_route', ['sigma_k'], d_cov_route)
+    emit('half_neg', ['d'], d_half_neg)
+    emit('centre_entry', ['g', 'sj', 'si', 'mm'], d_centre_entry)
+    emit('bures_clamp', ['v'], d_bures_clamp)
+    emit('bures_denom_sq', ['trA', 'trB'], d_bures_denom_sq)
+    emit('bures_ratio', ['num', 'denom'], d_bures_ratio)
+    emit('sq_bures', ['trA', 'trB', 'fid'], d_sq_bures)
+    emit('cka_half_neg', ['d'], d_cka_half_neg)
+    emit('cka_mean', ['rcsum', 'n_cond'], d_cka_mean)
+    emit('cka_centre', ['w', 'msum', 'mm'], d_cka_centre)
+    emit('run_tie', ['cnt'], d_run_tie)
+    emit('rank_tie', ['cnt'], d_rank_tie)
+    emit('rank_tie_keep', ['cnt'], d_rank_tie_keep)
+    emit('riem_gram', ['di', 'dj', 'dij'], d_riem_gram)
+    emit('riem_neg', ['f'], d_riem_neg)
+
+    text = '\n'.join(out)
+    if not (os.path.exists(DERIVED) and open(DERIVED).read() == text):
+        with open(DERIVED + '.tmp', 'w') as f:
+            f.write(text)
+        os.replace(DERIVED + '.tmp', DERIVED)
+
+
+_derive()
+
+
+def _d(name, func, params, ret='A', **kw):
+    return dict(name=name, file=DERIVED, func=func, kind='func', params=params, ret=ret, **kw)
+
+
 # leaves of rdm/compare.py whose exact text matters for C03 (regenerated on every run)
 LEAVES = [
     # tot = (size * (size - 1)) // 2
@@ -19,8 +481,34 @@ LEAVES = [
          count=1, params={'inner': 'A', 'n': 'A'}, ret='A',
          opaque={"np.einsum('ij,kj->ik', vector1, vector2)": 'inner'}),
     # linear-CKA fast path: mm = np.sum(vector_w * 2, ...) / (n_cond * n_cond)
-    # (`m = vector_w @ sumI / n_cond` is a matrix product, not a call: cannot be made opaque)
     dict(name='ckaGrandMean', file='rdm/compare.py', func='_cov_weighting', kind='assign', target='mm',
          count=1, params={'total2': 'A', 'n_cond': 'A'}, ret='A',
          opaque={"np.sum(vector_w * 2, axis=1, keepdims=True)": 'total2'}),
+    # ---- round 3
+    # recovery of the number of conditions from the vector length
+    dict(name='nFromReduced', file='util/rdm_utils.py', func='_get_n_from_reduced_vectors',
+         kind='func', params={'x_shape_1': 'Nat'}, ret='Nat'),
+    dict(name='nFromLength', file='util/rdm_utils.py', func='_get_n_from_length',
+         kind='func', params={'n': 'Nat'}, ret='Nat'),
+    # derived
+    _d('cosineSel', 'cosine_sel', {'norm': 'A'}, ret='Nat'),
+    _d('cosineEntry', 'cosine_entry', {'inner': 'A', 'n1': 'A', 'n2': 'A'}),
+    _d('runTie', 'run_tie', {'cnt': 'Nat'}, ret='Nat'),
+    _d('rankTie', 'rank_tie', {'cnt': 'Nat'}, ret='Nat'),
+    _d('rankTieKeep', 'rank_tie_keep', {'cnt': 'Nat'}, ret='Nat'),
+    _d('getVBranchNone', 'getv_branch', {'sigma_k': 'Nat', 'sigma_k_ndim': 'Nat'}, ret='Nat', none=['sigma_k']),
+    _d('getVBranch', 'getv_branch', {'sigma_k': 'Nat', 'sigma_k_ndim': 'Nat'}, ret='Nat'),
+    _d('covRouteNone', 'cov_route', {'sigma_k': 'Nat', 'sigma_k_ndim': 'Nat'}, ret='Nat', none=['sigma_k']),
+    _d('covRoute', 'cov_route', {'sigma_k': 'Nat', 'sigma_k_ndim': 'Nat'}, ret='Nat'),
+    _d('halfNeg', 'half_neg', {'d': 'A'}),
+    _d('centreEntry', 'centre_entry', {'g': 'A', 'sj': 'A', 'si': 'A', 'mm': 'A'}),
+    _d('buresClamp', 'bures_clamp', {'v': 'A'}),
+    _d('buresDenomSq', 'bures_denom_sq', {'trA': 'A', 'trB': 'A'}),
+    _d('buresRatio', 'bures_ratio', {'num': 'A', 'denom': 'A'}),
+    _d('sqBures', 'sq_bures', {'trA': 'A', 'trB': 'A', 'fid': 'A'}),
+    _d('ckaHalfNeg', 'cka_half_neg', {'d': 'A'}),
+    _d('ckaMean', 'cka_mean', {'rcsum': 'A', 'n_cond': 'A'}),
+    _d('ckaCentre', 'cka_centre', {'w': 'A', 'msum': 'A', 'mm': 'A'}),
+    _d('riemGram', 'riem_gram', {'di': 'A', 'dj': 'A', 'dij': 'A'}),
+    _d('riemNeg', 'riem_neg', {'f': 'A'}),
 ]
